@@ -23,6 +23,9 @@ CLAIMS = {
  'C04': ('pzv-scheme', 'property-based testing with an exact integer phase oracle (exact negacyclic product m2 * phase) and a deterministic gadget bound built from the exactly extracted errors of the actual GGSW / key cells, proptest, 4 backends',
          'glwe_external_product(_assign), gglwe / ggsw external products incl. results with fewer / more rows than the input, CMux (cmux, cmux_assign, cmux_assign_neg) and CSwap of poulpy-bin-fhe with bit and polynomial selectors, and every cell of a GGSW produced by ggsw_encrypt_sk, ggsw_from_gglwe, ggsw_expand_row, ggsw_keyswitch(_assign), ggsw_automorphism(_assign): generated gadget shapes (dnum 1..4, dsize 1..4, spare limbs), rank 1..3, GGSW precision below / equal / above the GLWE precision, independent radices, m2 in {0, +-1, +-X^k, dense ternary, dense small, sparse}, inputs with uniform / extreme / sparse digits, in-place and out-of-place forms.',
          'Trusted: hook H4, the phase model, the bound formula of gad.rs. Worst-case bound (about sqrt(N * digits) above typical noise). N <= 128.', 'DESIGN.md section 6 C04'),
+ 'C05': ('pzv-scheme', 'property-based testing against an exact big-integer product oracle (unreduced operand phases under the clear secret / secret tensor, hook H4), proptest, 4 backends',
+         'glwe_mul_const(_assign), glwe_mul_plain(_assign), glwe_tensor_apply, glwe_tensor_square_apply (same exact product as apply(a,a)), glwe_tensor_apply_add_assign (previous content + product) and glwe_tensor_relinearize: operand sizes 1..6 with independent effective precisions (masked bottom limb), every cnv_offset from 0 to the full product width (limb-aligned and not), results holding or truncating the product in the same or another radix, rank 1..2, digits uniform / extreme / sparse / monomial / zero; relinearisation keys dnum 1..4, dsize 1..3 in three radices. The exact phase of the result must equal phase(a) * phase(b) * 2^cnv_offset within the tail an implementation may drop when it computes only the limbs the result needs (stated per column), relinearisation within the tensor-key gadget bound.',
+         'Trusted: hook H4, the exact product model. The per-column tolerance (N * min(sa,sb) * 2^(b-1) units of the last limb, x6 for cross columns) is what truncated evaluation inherently loses; errors below it are not detected. N <= 64, rank <= 2.', 'DESIGN.md section 6 C05'),
  'C06': ('pzv-scheme', 'statistical property-based testing: model-free error extraction (difference of two encryptions sharing the mask seed) with exact discrete-moment oracles and concentration bounds at a fixed false-alarm budget',
          'For every encryption routine family (GLWE sk/pk, GGLWE, GGSW, switching/automorphism/tensor keys, compressed forms) over generated layouts: every error coefficient is inside the configured truncation bound (deterministic, every case); pooled over >= 2^15 (quick) / 2^17 (thorough) coefficients per case the second moment of e1-e2 matches twice the exact variance of the rounded truncated Gaussian (band from the exact fourth moment, per-run false-alarm budget 2^-30), the mean is centred, masks are not reused between cells and two seeds give different masks.',
          'Statistical: a deviation of the standard deviation below roughly 6 % (quick) / 3 % (thorough) is inside the band and not detected; distribution shape beyond the first four moments is not tested. Trusted: hook H4, the moment formulas (unit-tested against brute force).', 'DESIGN.md section 6 C06'),
